@@ -2,7 +2,7 @@
 
 Engine E2 (histories, stateless search).  State = (buffer text, virtual time, hidden cache state
 of parso's diff parser and of jedi's derived caches).  Every history of edit/clock events up to
-the tier's depth is replayed from the base text under a path never used before in that process
+the tier's depth is replayed (open the base text, then the events) under a path never used before in that process
 (mode `path`) or in the shared path-less slot (mode `none`, where a worker's consecutive
 histories deliberately form one long history).  After EVERY event a new `jedi.Script` is built in
 the same process and only that newest Script is asked the battery (complete, infer, goto, help,
@@ -36,23 +36,24 @@ MODES = ('path', 'none')
 
 # depth-3 (quick) / depth-4 (thorough) sub-alphabet: the events that change what names mean
 CORE7 = ('rename_def', 'change_params', 'del_body', 'paste', 'type', 'undo', 'wait4')
+CORE5 = ('rename_def', 'change_params', 'paste', 'type', 'undo')
 
 _B = tuple(model.BASES)
 # levels, simplest first: (name, [(base, alphabet name, depth), ...])
 PLANS = {
     'quick': [('depth1/13 events', [(b, 'Q13', 1) for b in _B]),
               ('depth2/13 events', [(b, 'Q13', 2) for b in _B]),
-              ('depth3/core 7 events/funcs', [('funcs', 'CORE7', 3)])],
+              ('depth3/core 5 events/funcs', [('funcs', 'CORE5', 3)])],
     'thorough': [('depth1/28 events', [(b, 'ALL28', 1) for b in _B]),
                  ('depth2/13 events', [(b, 'Q13', 2) for b in _B]),
-                 ('depth3/13 events', [(b, 'Q13', 3) for b in _B]),
                  ('depth2/28 events/mixed', [('mixed', 'ALL28', 2)]),
-                 ('depth4/core 7 events/funcs', [('funcs', 'CORE7', 4)])],
+                 ('depth3/13 events', [(b, 'Q13', 3) for b in _B]),
+                 ('depth4/core 5 events/funcs', [('funcs', 'CORE5', 4)])],
     'tiny': [('depth1/core 7 events/funcs', [('funcs', 'CORE7', 1)])],
     'dev': [('depth1/13 events', [(b, 'Q13', 1) for b in _B]),
             ('depth2/core 7 events/funcs', [('funcs', 'CORE7', 2)])],
 }
-ALPHABETS = {'Q13': model.QUICK_ALPHABET, 'CORE7': CORE7, 'ALL28': model.ALL_EVENTS}
+ALPHABETS = {'Q13': model.QUICK_ALPHABET, 'CORE7': CORE7, 'CORE5': CORE5, 'ALL28': model.ALL_EVENTS}
 
 
 # ---------------------------------------------------------------------------------------------
@@ -183,10 +184,15 @@ class Editor:
         return '<c08-shadow-of-None>' if path is None else str(path) + '.c08-shadow'
 
     def drop_shadow(self, path):
+        """A finished path-mode history never comes back: its entry and its shadow leave parso's
+        in-memory cache, which therefore stays far below parso's 600-entry garbage collection
+        (that collector's mtime-based ageing is a known long-lived-process defect outside C08)."""
         from parso.cache import parser_cache
         if path is not None:
             for d in parser_cache.values():
                 d.pop(self.shadow_key(path), None)
+                for k in [k for k in d if k is not None and str(k) == str(path)]:
+                    del d[k]
 
     @staticmethod
     def _tree_problem(node, text, ref_dump):
@@ -226,9 +232,13 @@ def run_history(ed, mode, base, events, judge=None, refs=True):
     steps = []
     evals = 0
     try:
-        for i, ev in enumerate(events):
+        for i in range(len(events) + 1):
             before = buf.text
-            r = buf.apply(ev)
+            if i == 0:
+                ev, r = 'open', (buf.text, 0.0)     # the buffer is opened with the base text
+            else:
+                ev = events[i - 1]
+                r = buf.apply(ev)
             if r is None:
                 raise RuntimeError('event %s disabled in %s' % (ev, hist_id(base, mode, events)))
             text, dt = r
@@ -812,16 +822,19 @@ ASSUMPTIONS = [
     'answers are compared as canonical JSON: infer/goto/help/get_references/get_signatures '
     'as sorted lists (set semantics), completions and get_names in order; completions of '
     'names defined outside the buffer are compared by name and type only',
+    'every history first opens the buffer with the base text (step 0: Script + battery, judged '
+    'like any step), so a history of depth d contains d incremental re-parses',
     'quick tier: all histories of depth <= 2 over the 13-event alphabet on 3 bases x 2 modes '
-    'and all depth-3 histories over the 7-event core alphabet on base `funcs`; thorough: '
+    'and all depth-3 histories over the 5-event core alphabet on base `funcs`; thorough: '
     'depth 1 over all 28 events and depth <= 3 over 13 events on all bases, depth 2 over 28 '
-    'events on `mixed`, depth 4 over the core alphabet on `funcs`',
+    'events on `mixed`, depth 4 over the 5-event core alphabet on `funcs`',
 ]
 
 
 def _text_of(base, events, step):
+    """Text after `step` events (step 0 = the freshly opened base text)."""
     buf = model.Buffer(base)
-    for ev in events[:step + 1]:
+    for ev in events[:step]:
         buf.apply(ev)
     return buf.text
 
@@ -859,7 +872,7 @@ def replay(case):
         for mode, base, events in task_sequence(case['pre_task'])[:case['pre_task']['upto']]:
             run_history(ed, mode, base, tuple(events))
     mode, base, events, step = case['mode'], case['base'], case['events'], case['step']
-    r = run_history(ed, mode, base, tuple(events[:step + 1]))
+    r = run_history(ed, mode, base, tuple(events[:step]))
     st = r['steps'][step]
     out = []
     hid = hist_id(base, mode, events)
